@@ -217,6 +217,34 @@ func observeTrie(tr *trie.Trie, m *trieModel, alphabet []byte, what string) erro
 			return fmt.Errorf("%s: ForEach stopped after its first item panicked: %v", what, p)
 		}
 	}
+	total := 0
+	for _, x := range members {
+		total += len(x)
+	}
+	if len(members) >= 1 && total <= 4096 {
+		// a callback that panics (the caller recovers, as a request handler does): the trie is as
+		// usable afterwards as before - the history goes on with Add and Delete
+		catch(func() {
+			tr.ForEach(func([]byte) bool { panic("the callback gives up") })
+		})
+		// callbacks that append to the slice they are handed (w.Write(append(b, '\n'))), in two
+		// traversals in a row
+		for pass := 0; pass < 2; pass++ {
+			n := 0
+			if p := catch(func() {
+				tr.ForEach(func(b []byte) bool {
+					_ = append(b, "\n#"...)
+					n++
+					return n <= len(members)+4
+				})
+			}); p != nil {
+				return fmt.Errorf("%s: ForEach with a callback that appends to its argument panicked: %v", what, p)
+			}
+			if n != len(members) {
+				return fmt.Errorf("%s: ForEach with a callback that appends to its argument reports %d items (traversal %d), the trie has %d members", what, n, pass+1, len(members))
+			}
+		}
+	}
 	got, err := trieMembers(tr, len(members)+4)
 	if err != nil {
 		return fmt.Errorf("%s: %v", what, err)
